@@ -253,6 +253,29 @@ pub fn gen_vm_job(rng: &mut Rng) -> Option<GenJob> {
     })
 }
 
+/// A job on a member of the build-time grammar family: through the GENERATED parser, or (same
+/// grammar text, same rule, same input) through the VM.
+pub fn gen_family_job(rng: &mut Rng, derive: bool) -> GenJob {
+    let index = rng.below(parsework::family::FAMILY);
+    let g = parsework::family::ast(index);
+    let start = if rng.chance(2, 3) { 0 } else { rng.below(g.rules.len()) };
+    let input = gen::gen_input(rng, &g, start, 16);
+    let rule = g.rules[start].name.clone();
+    let backend = if derive {
+        Backend::Gen { index, rule }
+    } else {
+        Backend::Vm {
+            grammar: parsework::family::FAMILY_TEXTS[index].to_string(),
+            rule,
+        }
+    };
+    GenJob {
+        job: Job { backend, input },
+        ast: g,
+        start,
+    }
+}
+
 pub fn job_hash(j: &Job) -> u64 {
     prng::fnv1a(format!("{:?}", j).as_bytes())
 }
@@ -283,6 +306,8 @@ fn gen_cfg_case(rng: &mut Rng, rs: u64, with_limit: bool, with_detail: bool, cor
     for _ in 0..njobs {
         let j = if !corpus.is_empty() && rng.chance(1, 6) {
             corpus[rng.below(corpus.len())].clone()
+        } else if rng.chance(1, 5) {
+            gen_family_job(rng, true).job
         } else {
             gen_vm_job(rng)?.job
         };
@@ -313,6 +338,12 @@ pub fn c12_case(seed: u64, i: u64, corpus: &[Job]) -> Case12 {
             None => Case12::Discard,
         }
     } else {
+        if i % 5 == 2 {
+            // the generated-parser back-end on a member of the build-time family (no grammar
+            // shrinking for these: the parser is compiled in)
+            let g = gen_family_job(&mut rng, true);
+            return Case12::Sweep(g.job, None);
+        }
         match gen_vm_job(&mut rng) {
             Some(g) => Case12::Sweep(g.job, Some((g.ast, g.start))),
             None => Case12::Discard,
@@ -503,6 +534,10 @@ pub fn c15_case(seed: u64, i: u64, corpus: &[Job]) -> Case15 {
             None => Case15::Discard,
         }
     } else {
+        if i % 5 == 2 {
+            let g = gen_family_job(&mut rng, true);
+            return Case15::Diff(g.job, None);
+        }
         match gen_vm_job(&mut rng) {
             Some(g) => Case15::Diff(g.job, Some((g.ast, g.start))),
             None => Case15::Discard,
